@@ -25,6 +25,10 @@ def units(tier):
     for kind in A.KINDS:
         us.append(("dates", kind))
         us.append(("text_dates", kind))
+    for a in A.KINDS:
+        for b in A.KINDS:
+            if a != b:
+                us.append(("switch", a, b))
     us.append(("times",))
     us.append(("text_times",))
     for h0 in range(-100, 101, 20):
@@ -241,6 +245,32 @@ def run_unit(unit, ctx):
                     _ctor(ctx, {"kind": "ctor", "mode": kind, "kw": dict(base, week_of_year=w, day_of_week=wd)},
                           {"part": "week"}, dict(base, week_of_year=w, day_of_week=wd), c.valid_week(y, w, wd))
         ctx.sample({"mode": kind, "ctor": {"year": 2015, "month_of_year": 2, "day_of_month": 30}})
+    elif u == "switch":
+        # the acceptance table is a function of the *active* mode: re-check the mode-dependent edges in mode B after
+        # the same tuples were evaluated in mode A in this process (validation must not remember the other calendar)
+        _, ka, kb = unit
+        parser = _tp_parser(assumed_time_zone=(0, 0))
+        for rnd, kind in enumerate((ka, kb, ka)):
+            impl.set_mode(A.MODE_OF[kind])
+            c = M.cal(kind)
+            for y in (2015, 2016, 2019, 2020):
+                base = {"year": y}
+                for doy in (359, 360, 361, 364, 365, 366, 367):
+                    ctx.state_count += 1
+                    _ctor(ctx, {"kind": "ctor", "mode": kind, "kw": dict(base, day_of_year=doy), "after_mode": ka if rnd else None},
+                          {"part": "ord", "switch": True}, dict(base, day_of_year=doy), c.valid_ord(y, doy))
+                    text = "%04d-%03d" % (y, doy)
+                    _parse(ctx, parser, {"kind": "parse", "mode": kind, "text": text, "after_mode": ka if rnd else None},
+                           {"part": "ord", "switch": True}, text, c.valid_ord(y, doy))
+                for mo, d in ((2, 28), (2, 29), (2, 30), (2, 31), (1, 30), (1, 31), (12, 30), (12, 31), (4, 30), (4, 31)):
+                    ctx.state_count += 1
+                    kw = dict(base, month_of_year=mo, day_of_month=d)
+                    _ctor(ctx, {"kind": "ctor", "mode": kind, "kw": kw, "after_mode": ka if rnd else None},
+                          {"part": "cal", "switch": True}, kw, c.valid_cal(y, mo, d))
+                for w in (51, 52, 53, 54):
+                    kw = dict(base, week_of_year=w, day_of_week=7)
+                    _ctor(ctx, {"kind": "ctor", "mode": kind, "kw": kw, "after_mode": ka if rnd else None},
+                          {"part": "week", "switch": True}, kw, c.valid_week(y, w, 7))
     elif u == "text_dates":
         kind = unit[1]
         impl.set_mode(A.MODE_OF[kind])
